@@ -2,6 +2,7 @@
 package main
 
 import (
+	"golang.org/x/tools/go/ssa"
 	"encoding/json"
 	"flag"
 	"fmt"
@@ -25,6 +26,11 @@ type PropConfig struct {
 	Undecided   []string `json:"undecided"`   // sub-claims not decided by this check
 	Bounded     []string `json:"bounded"`     // lemma functions that are bounded stand-ins (name prefix)
 	TrustedBase []string `json:"trusted_base"`
+	// obligations generated for the listed functions that belong to another property's decision
+	Excluded []struct {
+		Match  string `json:"match"`
+		Reason string `json:"reason"`
+	} `json:"excluded"`
 }
 
 type Finding struct {
@@ -157,7 +163,7 @@ func cmdCheck(args []string) int {
 		if v.lib.Contracts[name] == nil {
 			attach = append(attach, fmt.Sprintf("%s#contract.attach: no contract found for a function the property depends on", name))
 		}
-		u := v.verifyFunction(fn)
+		u := v.verifyIsolated(fn)
 		units = append(units, u)
 		underContract = append(underContract, name)
 		for _, e := range u.errs {
@@ -175,6 +181,46 @@ func cmdCheck(args []string) int {
 			for _, fn := range fnames {
 				if fn == cn {
 					attach = append(attach, fmt.Sprintf("%s#contract.attach: contract target missing", cn))
+				}
+			}
+		}
+	}
+	// map value invariants are assumed at lookups: every assignment to a map of such a type, anywhere
+	// in the loaded packages, must be made by a function checked under the same invariant
+	for _, name := range underContract {
+		c := v.lib.Contracts[name]
+		if c == nil {
+			continue
+		}
+		for _, mi := range c.MapInvs {
+			for on, ofn := range v.prog.byName {
+				writes := false
+				for _, b := range ofn.Blocks {
+					for _, in := range b.Instrs {
+						if mu, ok := in.(*ssa.MapUpdate); ok && mapTypeString(mu.Map.Type()) == mi.Type {
+							writes = true
+						}
+					}
+				}
+				if !writes {
+					continue
+				}
+				okc := false
+				if oc := v.lib.Contracts[on]; oc != nil {
+					for _, omi := range oc.MapInvs {
+						if omi.Type == mi.Type && omi.C.Src == mi.C.Src {
+							okc = true
+						}
+					}
+				}
+				inList := false
+				for _, fnm := range fnames {
+					if fnm == on {
+						inList = true
+					}
+				}
+				if !okc || !inList {
+					attach = append(attach, fmt.Sprintf("%s#contract.attach: mapinv %s is assumed but %s assigns to such a map without being checked under the same invariant", name, mi.Type, on))
 				}
 			}
 		}
@@ -217,7 +263,7 @@ func cmdCheck(args []string) int {
 			axioms = append(axioms, fmt.Sprintf("axiom %s (%s): %s", l.Name, l.Where, l.Src))
 			continue
 		}
-		os, err := v.lemmaObligations(l)
+		os, err := v.lemmaObligationsIsolated(l)
 		if err != nil {
 			attach = append(attach, fmt.Sprintf("lemma.%s#contract.attach: %v", ln, err))
 			continue
@@ -235,6 +281,15 @@ func cmdCheck(args []string) int {
 		}
 		return false
 	}
+	isExcluded := func(name string) string {
+		for _, e := range cfg.Excluded {
+			if strings.Contains(name, e.Match) {
+				return e.Reason
+			}
+		}
+		return ""
+	}
+	nExcluded := 0
 	var recs []oblRecord
 	nObl, nDis, nBounded, nBoundedOK, nCover, nCoverSat, nTrivial := 0, 0, 0, 0, 0, 0, 0
 	byBackend := map[string]int{}
@@ -261,6 +316,11 @@ func cmdCheck(args []string) int {
 			case "failed":
 				fails = append(fails, failure{r, "vacuity: the assumptions of " + o.Fn + " are contradictory (cover query unsat)"})
 			}
+			continue
+		}
+		if why := isExcluded(o.Name); why != "" {
+			recs[len(recs)-1].Status = "excluded (" + r.Status + "): " + why
+			nExcluded++
 			continue
 		}
 		bounded := isBounded(o.Name)
@@ -397,9 +457,14 @@ func cmdCheck(args []string) int {
 		"property_id": id, "tier": tier, "seed": seed, "level": "proof", "coverage": cov,
 		"assumptions": assumptions, "wall_s": round2(time.Since(t0).Seconds()), "violations": violations,
 	}
-	os.MkdirAll(filepath.Join(*verif, "evidence"), 0o755)
+	// evidence goes to /verif/evidence; runs against deliberately broken trees (tools/trymutant.sh) redirect it
+	evDir := filepath.Join(*verif, "evidence")
+	if d := os.Getenv("GOVC_EVIDENCE_DIR"); d != "" {
+		evDir = d
+	}
+	os.MkdirAll(evDir, 0o755)
 	jb, _ := json.MarshalIndent(ev, "", " ")
-	os.WriteFile(filepath.Join(*verif, "evidence", id+".json"), jb, 0o644)
+	os.WriteFile(filepath.Join(evDir, id+".json"), jb, 0o644)
 	fmt.Printf("%s %s: %d obligations, %d discharged, %d bounded (%d ok), %d known findings, %d violations, %.1fs\n", id, tier, nObl, nDis, nBounded, nBoundedOK, len(known), violations, time.Since(t0).Seconds())
 	if violations > 0 {
 		return 1
